@@ -190,6 +190,20 @@ theorem combineFirst_spec {frame other : List Name} {p : Parent} {deps : List De
   · cases h
   · cases h; exact ⟨rfl, rfl⟩
 
+theorem opAlign_spec {frame : List Name} {other : Option (List Name)} {p : Parent} {deps : List Dep} {rw : Rw}
+    (h : opAlign frame other p deps = some rw) :
+    ∃ oc0, other = some oc0 ∧
+      rw = { childs := [some (.many (frame.filter ((detProj p deps []).toList.contains ·))),
+                        some (.many (oc0.filter ((detProj p deps []).toList.contains ·)))], keep := true } := by
+  unfold opAlign at h
+  cases other with
+  | none => cases h
+  | some oc0 =>
+    simp only at h
+    split at h
+    · cases h
+    · cases h; exact ⟨oc0, rfl, rfl⟩
+
 theorem resetIndex_spec {frame : List Name} {drop named : Bool} {p : Parent} {deps : List Dep} {rw : Rw}
     (h : resetIndex frame drop named p deps = some rw) :
     (drop = true ∨ named = true ∨ "index" ∉ frame) ∧
@@ -250,14 +264,14 @@ theorem plainSel_mem (frame : List Name) (p : Parent) (deps : List Dep) (extra :
 
 theorem astype_spec {frame : List Name} {dkeys : Option (List Name)} {p : Parent} {deps : List Dep} {rw : Rw}
     (h : astype frame dkeys p deps = some rw) :
-    (dkeys.map (·.filter (detProj p deps []).has) = some [] ∧ rw = { childs := [none], keep := true, gone := true }) ∨
-    (dkeys.map (·.filter (detProj p deps []).has) ≠ some [] ∧
+    (dkeys.map (·.filter ((detProj p deps []).toList.contains ·)) = some [] ∧ rw = { childs := [none], keep := true, gone := true }) ∨
+    (dkeys.map (·.filter ((detProj p deps []).toList.contains ·)) ≠ some [] ∧
       ((∃ l, detProj p deps [] = .many l ∧
           rw = { childs := [some (.many (frame.filter (l.contains ·)))], keep := true,
-                 keys := dkeys.map (·.filter (detProj p deps []).has) }) ∨
+                 keys := dkeys.map (·.filter ((detProj p deps []).toList.contains ·)) }) ∨
        (∃ s, detProj p deps [] = .one s ∧
           rw = { childs := [some (.one s)], keep := false,
-                 keys := dkeys.map (·.filter (detProj p deps []).has) }))) := by
+                 keys := dkeys.map (·.filter ((detProj p deps []).toList.contains ·)) }))) := by
   unfold astype at h
   simp only at h
   split at h
